@@ -241,9 +241,10 @@ def MRMorTail (T : Nat) (rs : DRestruct r) : Prop :=
     | .error e => ∃ m'' s'' cc, rs.mergeOrRebalance (md_meta m1 x) s1 (md_tree d child' none) (Int.ofNat k) (u32 u) =
           (some e, m'', s'', cc)
 
-/-- the invariant `I` is kept along the descent of `Remove` for the key `k`: by the leaf's `Remove` (which does not decrease the allocation counter), going down to a
-    child (`down`), its members have `uint32` sizes (`size`),
-    child, and by writing the child on the path of `k`, when it comes back neither full nor underflowing, back into its parent -/
+/-- the invariant `I` is kept along the descent of `Remove` for the key `k`: by the leaf's `Remove` (`leaf`; it does not
+    decrease the allocation counter: `mono`), by going down to a child (`down`), and by writing the child on the path of
+    `k`, when it comes back neither full nor underflowing, back into its parent (`store`); its members have `uint32`
+    sizes (`size`) -/
 structure MRInvClosed (cfg : MCfg) (k : MKey) : Prop where
   leaf : ∀ (sl : MDataSlab r) (c : Ctx) rk rv (sl' : MDataSlab r) c', I 0 (sl : MDataSlab r) →
     MDataSlab.remove cfg sl k c = .ok (rk, rv, sl', c') → I 0 (sl' : MDataSlab r)
